@@ -9,7 +9,7 @@ build_one() {
   d=build/ocaml/$e
   mkdir -p $d
   ( cd $d && timeout 600 coqc -Q ../../../coq/theories QV ../../../coq/extract/Extract$E.v > extract.log 2>&1 \
-    && cp ../../../coq/extract/drv.ml . && sed -e '/(\*#include zconv\*)/{r ../../../coq/extract/zconv.inc' -e 'd}' ../../../coq/extract/drv_$e.ml > drv_$e.ml \
+    && cp ../../../coq/extract/drv.ml . && sed -e '/(\*#include zconv\*)/{r ../../../coq/extract/zconv.inc' -e 'd}' -e '/(\*#include natconv\*)/{r ../../../coq/extract/natconv.inc' -e 'd}' ../../../coq/extract/drv_$e.ml > drv_$e.ml \
     && ocamlfind ocamlopt -O3 -w -a $e.mli $e.ml drv.ml drv_$e.ml -o ../../qmodel_$e > build.log 2>&1 ) \
     || { echo "engine $e failed"; cat $d/extract.log $d/build.log 2>/dev/null | tail -30; return 1; }
 }
